@@ -474,12 +474,15 @@ fn main() {
     // fixed d9e8e2a: execute_mixed drained the plan iterator after the timeout error (ran > 100 s with soft_timeout_ms = 1000)
     push(&mut cases, "UNWIND range(1, 100000) AS x UNWIND range(1, 100000) AS y RETURN count(*)".into(), json!({}), 1, "corpus", None);
     // deep nesting of every recursive production / long chains
-    let deep: &[usize] = if a.tier == "thorough" { &[1, 2, 3, 10, 50, 100, 200, 500, 1000, 5000, 20000, 100000] } else { &[1, 3, 30, 100, 400, 3000, 50000] };
+    // every recursive production and every chain: around the limit of each family (the deepest accepted
+    // input must run without overflowing the 2 MiB stack in this build) and far beyond it (must be rejected)
+    let deep: &[usize] = if a.tier == "thorough" {
+        &[1, 2, 3, 10, 14, 15, 18, 19, 21, 22, 30, 45, 49, 50, 51, 60, 74, 75, 76, 100, 144, 147, 148, 149, 150, 151, 200, 400, 1000, 3000, 20000, 100000]
+    } else {
+        &[1, 3, 14, 18, 21, 30, 49, 50, 51, 74, 75, 100, 147, 149, 150, 151, 400, 3000, 50000]
+    };
     for k in NEST_KINDS.iter().chain(OTHER_KINDS.iter()) {
         for d in deep {
-            if ["chain-match", "chain-union", "chain-with", "chain-unwind", "callsub", "exists", "foreach"].contains(k) && *d > 5000 {
-                continue; // clause-level chains of this length take tens of seconds to plan; they abort at 3000 already
-            }
             let nestinfo = if NEST_KINDS.contains(k) { Some((k.to_string(), *d)) } else { None };
             push(&mut cases, nest(k, *d), json!({}), 1, &format!("deep:{}", k), nestinfo);
         }
@@ -506,7 +509,8 @@ fn main() {
     let mut fails = 0u64;
     let mut slowest = 0u128;
     for (c, o) in cases.iter().zip(&outcomes) {
-        *hist.entry(format!("{}:{}", c.stream, o.kind)).or_insert(0) += 1;
+        let rejected_deep = o.kind == "error" && o.detail.contains("NestingDepthLimitExceeded");
+        *hist.entry(format!("{}:{}", c.stream, if rejected_deep { "rejected-nesting-limit" } else { o.kind.as_str() })).or_insert(0) += 1;
         slowest = slowest.max(o.ms);
         if o.kind == "rows" || o.detail.contains("execute:") {
             nontrivial.insert(c.query.clone());
@@ -533,11 +537,10 @@ fn main() {
         }
         if !(o.kind == "rows" || o.kind == "error") {
             fails += 1;
-            let deepq = text_nesting(&c.query) > 256 || chain_len(&c.query) > 1000;
-            let class = if o.kind != "timeout" && deepq { Some("K-C16-depth") } else { None };
+            let class: Option<&str> = None; // K-C16-depth was repaired (d751b2b): no abort is known any more
             *hist.entry(format!("direct-failure:{}:{}", o.kind, class.unwrap_or("unclassified"))).or_insert(0) += 1;
             rep.fail(c.id, class, &format!("query processing ended in {} ({})", o.kind, o.detail.chars().take(160).collect::<String>()),
-                json!({"query_prefix": c.query.chars().take(300).collect::<String>(), "query_len": c.query.len(), "stream": c.stream, "params": c.params, "graph": GRAPH_NAMES[c.graph], "text_nesting": text_nesting(&c.query)}));
+                json!({"query_prefix": c.query.chars().take(300).collect::<String>(), "query_len": c.query.len(), "stream": c.stream, "params": c.params, "graph": GRAPH_NAMES[c.graph], "text_nesting": text_nesting(&c.query), "chain_len": chain_len(&c.query)}));
         }
     }
     cw.flush();
@@ -545,7 +548,7 @@ fn main() {
         "evaluations": cases.len(),
         "corr_cases": cw.total,
         "distinct_nontrivial": nontrivial.len(),
-        "rule": "queries: deep nesting (1 .. 50k/100k levels) of 9 expression productions and 12 clause-level / chain productions; token soup; mutated valid queries; 40 valid queries over all clauses; 70 functions x boundary arguments; random bytes / unusual Unicode; keyword prefix + multi-byte text; huge literals; random parameters; graphs: empty, small, compacted+delta. Each query is prepared and executed (execute_mixed, write transaction dropped) in a child process on a 2 MiB thread, then through ndb_query; non-trivial = the query got past prepare (rows or an execution error), distinct by text",
+        "rule": "queries: nesting / chain length 1 .. 50k/100k, dense around the limit, of 9 expression productions and 12 clause-level / chain productions; token soup; mutated valid queries; 40 valid queries over all clauses; 70 functions x boundary arguments; random bytes / unusual Unicode; keyword prefix + multi-byte text; huge literals; random parameters; graphs: empty, small, compacted+delta. Each query is prepared and executed (execute_mixed, write transaction dropped) in a child process on a 2 MiB thread, then through ndb_query; non-trivial = the query got past prepare (rows or an execution error), distinct by text",
         "histogram": hist,
         "direct_failures": fails,
         "slowest_ms": slowest as u64,
